@@ -3,7 +3,7 @@ import numpy as np
 import scipy.linalg as sl
 
 from .. import casecheck
-from ..pool import contract, metadata_problem, core_arrays
+from ..pool import contract, metadata_problem, core_arrays, same_state
 
 ASSUME = [
     'initial states are right-orthonormal and normalised (the algorithms of the cited reference start from a right-canonical state; the library\'s own caller orthonormalises first); Krylov needs a normalised state',
@@ -48,7 +48,7 @@ def replay(case):
         if not isinstance(sol, list) or len(sol) != n + 1:
             out.append(('%s:length' % name, 'returned %r entries for %d steps' % (len(sol) if isinstance(sol, list) else type(sol), n)))
             return None
-        if sol[0] is not x0:
+        if not same_state(sol[0], x0):
             out.append(('%s:initial' % name, 'first entry is not the initial state'))
             return None
         xs = []
@@ -194,6 +194,9 @@ def post_hook(artifacts, rep, tier):
     acc = 0
     for k, t in enumerate(traces):
         v = verdicts.get(k + 1)
+        if not t.get('bound', True):
+            rep.note('sweep trace of driver %s not bound (helper renamed or re-shaped): skipped' % t['driver'])
+            continue
         if v is None and t['raised'] is None:
             acc += 1
             continue
